@@ -149,8 +149,9 @@ def run_batch(mod, seed, tr, n_runs, budget_s):
     jobs = []
     if hasattr(mod, 'systematic'):
         sysplans = list(mod.systematic(tr))
-        for k in range(0, len(sysplans), 50):
-            jobs.append((mod.__name__, seed, 0, 0, tr, sysplans[k:k + 50]))
+        step = getattr(mod, 'SYSTEMATIC_CHUNK', 50)
+        for k in range(0, len(sysplans), step):
+            jobs.append((mod.__name__, seed, 0, 0, tr, sysplans[k:k + step]))
     for lo in range(0, n_runs, chunk):
         jobs.append((mod.__name__, seed, lo, min(n_runs, lo + chunk), tr, None))
     merged = {'n': 0, 'evals': 0, 'ok': 0, 'skip': 0, 'viol': [], 'known': {}, 'viol_dropped': 0, 'counters': {}, 'digests': {},
